@@ -7,6 +7,20 @@ def run(ctx, rep):
     runloop.r13b(ctx, rep)
     runloop.r13c(ctx, rep)
     runloop.r13d(ctx, rep)
+    # R13e: a sliced run collects at *every* slice end, i.e. at instruction boundaries an uninterrupted run never collects at:
+    # the machine registers and the live stack must be complete roots there (C03's R03b and R03g, re-labelled)
+    from . import C03
+    sub = type(rep)(rep.prop)
+    C03.r03b(ctx, sub)
+    C03.r03g(ctx, sub)
+    rep.rule("R13e", "a collection at a slice boundary is safe: every register and the whole live stack are roots on every "
+             "path to the sweep (C03's R03b root completeness / adequacy / unconditional marking and R03g top-of-stack "
+             "inclusion). Uninterrupted runs collect only every 8192 cycles and after HALT, so a root that is missing at "
+             "some instruction boundaries is visible only to sliced execution.")
+    for o in sub.obs:
+        o.key = o.key.replace("R03b", "R13e", 1).replace("R03g", "R13e", 1)
+        o.rule = "R13e"
+        rep.obs.append(o)
     rep.note("composes with C03: a collection at a slice boundary is an instruction-boundary collection (R03a-d)")
     rep.not_decided += ["value/effect equality of sliced and uninterrupted runs for concrete programs",
                         "the JavaScript resume loop of the wasm front end"]
